@@ -11,6 +11,11 @@ pub struct FaultySink {
     /// Some(persistent): when the injected failure fires, also refuse the next allocation
     pub then_refuse_alloc: Option<bool>,
     pub fired: bool,
+    /// a sink that itself formats a value of the library whenever it is written
+    /// to (a log-line writer stamping its lines): the library is re-entered from
+    /// inside its own write call
+    pub reentrant: bool,
+    depth: u8,
 }
 
 impl FaultySink {
@@ -22,6 +27,8 @@ impl FaultySink {
             capacity,
             then_refuse_alloc,
             fired: false,
+            reentrant: false,
+            depth: 0,
         }
     }
     fn fail(&mut self) -> fmt::Result {
@@ -33,10 +40,31 @@ impl FaultySink {
     }
 }
 
+/// counts bytes, never fails, never allocates
+struct Inner(usize);
+impl fmt::Write for Inner {
+    fn write_str(&mut self, s: &str) -> fmt::Result {
+        self.0 += s.len();
+        Ok(())
+    }
+}
+
 impl fmt::Write for FaultySink {
     fn write_str(&mut self, s: &str) -> fmt::Result {
         let idx = self.writes;
         self.writes += 1;
+        if self.reentrant && self.depth == 0 {
+            self.depth = 1;
+            let mut inner = Inner(0);
+            let stamp = sqldatetime::Timestamp::MIN;
+            if let Ok(d) = stamp.format("YYYY-MM-DD HH24:MI:SS.FF6") {
+                let _ = write!(inner, "{} ", d);
+            }
+            if let Ok(f) = sqldatetime::Formatter::try_new("DAY, DD MONTH YYYY") {
+                let _ = f.format(sqldatetime::Date::MAX, &mut inner);
+            }
+            self.depth = 0;
+        }
         if self.fail_at == Some(idx) {
             return self.fail();
         }
